@@ -453,7 +453,8 @@ Fixpoint resolve_all (q : quirks) (ct : list cdesc) : list rcls :=
 (* ------------------------------------------------------------------ construction *)
 Record st := mkst {
   s_dict : list (aid * aval);    (* instance __dict__ in insertion order *)
-  s_post : list cid;             (* __post_init__ bodies that ran (defining class) *)
+  s_post : list (cid * list aid); (* __post_init__ bodies that ran: defining class and the
+                                     attribute names in the instance dict at that moment *)
   s_hand : list cid;             (* hand-written constructors that ran *)
 }.
 
@@ -654,7 +655,7 @@ Section Init.
                 let post := if q_static_post q then m_post m
                             else first_some (fun r => if rc_post r then Some (rc_id r) else None) ra in
                 Ok (match post with
-                    | Some pc => mkst (s_dict s3) (s_post s3 ++ [pc]) (s_hand s3)
+                    | Some pc => mkst (s_dict s3) (s_post s3 ++ [(pc, map fst (s_dict s3))]) (s_hand s3)
                     | None => s3 end)
             end
         end
